@@ -1,4 +1,5 @@
 import EzdxfVerif.Model.Xref
+import EzdxfVerif.Model.XrefOv
 import EzdxfVerif.Gen.XrefTables
 import Drivers.Proto
 open EzdxfVerif EzdxfVerif.Xref EzdxfVerif.Gen Proto
@@ -66,6 +67,27 @@ def pNodes (s : String) : Option Db := (splitNE s ";").mapM pNode
 def pPairs (s : String) : Option Sigma :=
   (splitNE s ";").mapM fun kv => match kv.splitOn ">" with
     | [k, v] => do let a ← k.toNat?; let b ← v.toNat?; pure (a, b)
+    | _ => none
+
+def copyrefMark : Nat := 4294967295
+def attrName (a : Nat) : String := (XrefOverrides.attrNames[a]?).getD "?"
+def attrId (n : String) : Option Nat := let i := XrefOverrides.attrNames.idxOf n; if i < XrefOverrides.attrNames.length then some i else none
+
+def pAttrNats (s : String) : Option (List (Nat × Nat)) :=
+  (splitNE s ";").mapM fun kv => match kv.splitOn "=" with
+    | [k, v] => do let a ← attrId k; let b ← v.toNat?; pure (a, b)
+    | _ => none
+
+def pAttrStrs (s : String) : Option (List (Nat × Str)) :=
+  (splitNE s ";").mapM fun kv => match kv.splitOn "=" with
+    | [k, v] => do let a ← attrId k; let b ← pStr v; pure (a, b)
+    | _ => none
+
+def pNameMaps (s : String) : Option (List (Nat × Str × Str)) :=
+  (splitNE s ";").mapM fun kv => match kv.splitOn ":" with
+    | [k, ov] => match ov.splitOn ">" with
+      | [o, n] => do let a ← k.toNat?; let b ← pStr o; let c ← pStr n; pure (a, b, c)
+      | _ => none
     | _ => none
 
 def pRegs (s : String) : Option (List (Nat × Reg)) :=
@@ -150,10 +172,45 @@ def step (line : String) : String :=
       | .error e => "err " ++ sErr e
       | .ok (d, σ') =>
         let new := d.tgt.filter fun n => σ.range.contains n.handle
-        "ok " ++ ";".intercalate (new.map sNode) ++ "|" ++
+        -- owner of a copy, when it is the copy of a block record (restore_block_content) and no loading command placed the copy
+        let own := fun (n : Node) => if σ.range.contains n.owner && !pl.contains n.handle then n.owner else 0
+        "ok " ++ ";".intercalate (new.map fun n => sNode n ++ "," ++ toString (own n)) ++ "|" ++
           ";".intercalate (σ'.map fun e => toString e.1 ++ ">" ++ toString e.2) ++ "|" ++
           (if d.src = s then "src-same" else "src-changed")
     | _, _, _, _, _ => "bad-op"
+  | ["ov", cls, sig, attrs] =>
+    -- the map_resources chain of entity type `cls` on the handle attributes of one entity: attrs = name=handle;… (absent: not listed)
+    match XrefOv.rows.find? (·.cls = cls), pPairs sig, pAttrNats attrs with
+    | some r, some σ, some av =>
+      let src : XrefOv.Attrs := fun a => (av.find? (·.1 = a)).map (·.2)
+      let res := XrefOv.mapAttrs (fun _ => true) σ (fun _ => copyrefMark) r.maps src
+      -- an attribute a statement under an undecided test touches cannot be predicted: "T" (matches anything)
+      let isUnk := fun (c : XrefOv.Cond) => match c with | .unk _ _ => true | _ => false
+      let undecided := fun (a : Nat) => r.maps.any fun e => e.attr == a && isUnk e.cond
+      ";".intercalate (r.ptrAttrs.map fun a =>
+        attrName a ++ "=" ++ (if undecided a then "T" else match res a with | none => "0" | some v => if v = copyrefMark then "T" else toString v))
+    | _, _, _ => "bad-op"
+  | ["on", cls, maps, attrs] =>
+    -- … on the resource-name attributes: maps = kind:old>new;… (old = case-folded key), attrs = name=<code points>;…
+    match XrefOv.rows.find? (·.cls = cls), pNameMaps maps, pAttrStrs attrs with
+    | some r, some ms, some av =>
+      let src : XrefOv.Names := fun a => (av.find? (·.1 = a)).map (·.2)
+      let nm := fun (k : Nat) (s : Str) => match ms.find? (fun m => m.1 = k ∧ m.2.1 = lower s) with | some m => m.2.2 | none => s
+      let res := XrefOv.mapNames nm (fun _ => [84]) r.maps src
+      ";".intercalate (r.nameAttrs.map fun (a, _) => attrName a ++ "=" ++ (match res a with | none => "-" | some v => sStr v))
+    | _, _, _ => "bad-op"
+  | ["or", cls, hattrs, nattrs] =>
+    -- what the register_resources chain of entity type `cls` hands to the registry for one entity: the (kind, value) pairs of the
+    -- statements about DXF attributes, values of absent attributes and null handles left out, sorted
+    match XrefOv.rows.find? (·.cls = cls), pAttrNats hattrs, pAttrStrs nattrs with
+    | some r, some hv, some nv =>
+      let items := r.regs.filterMap fun g =>
+        match nv.find? (·.1 = g.1), hv.find? (·.1 = g.1) with
+        | some x, _ => some (toString g.2 ++ ":" ++ sStr (lower x.2))     -- names are table keys: case-folded
+        | none, some x => if x.2 = 0 then none else some (toString g.2 ++ ":" ++ toString x.2)
+        | none, none => none
+      ";".intercalate (items.toArray.qsort (· < ·)).toList
+    | _, _, _ => "bad-op"
   | _ => "bad-op"
 
 def main : IO Unit := Proto.run step
